@@ -90,13 +90,22 @@ ClosesWs(cc, reason) == cc.st = "connected" /\ cc.tr = "websocket"
 
 \* _receive_packet
 Receive(cc, p) ==
-    CASE IsMsg(p)    -> [cc EXCEPT !.hq = Append(@, p), !.rx = Append(@, p)]
+    CASE IsMsg(p)    -> [cc EXCEPT !.hq = Append(@, p), !.rx = Append(@, p),
+                                   !.dev = IF cc.st # "connected" THEN @ \cup {"LateReceive"} ELSE @]
       [] IsPing(p)   -> SendPacket(cc, PongFor(p))
       [] p = "CLOSE" -> DisconnectAbort(cc, "server")
       [] OTHER       -> cc           \* NOOP and unknown types are ignored
 
 RECURSIVE ReceiveAll(_, _)
 ReceiveAll(cc, pk) == IF pk = <<>> THEN cc ELSE ReceiveAll(Receive(cc, Head(pk)), Tail(pk))
+\* the polling read loop hands a packet over only while the client is still connected (a
+\* disconnect() while the GET was in flight, or a CLOSE earlier in the payload, ends it);
+\* deviation "ReadLoopIgnoresState" is the behaviour before the repair of F24
+RECURSIVE ReceivePolled(_, _)
+ReceivePolled(cc, pk) ==
+    IF pk = <<>> THEN cc
+    ELSE IF cc.st # "connected" /\ "ReadLoopIgnoresState" \notin Deviations THEN cc
+    ELSE ReceivePolled(Receive(cc, Head(pk)), Tail(pk))
 
 \* does processing pk close the websocket from the client side?
 RECURSIVE AnyClose(_, _)
@@ -166,7 +175,7 @@ ConnectReply(id, status, pk, raw, pi, pt) ==
                                    !.st = "connected", !.reg = TRUE]
                   c2a == Event(c1, "connect")
                   c2 == IF ConnectDisconnects THEN HandlerDisconnect(c2a, ws) ELSE c2a
-                  c3 == ReceiveAll(c2, Tail(pk))
+                  c3 == ReceivePolled(c2, Tail(pk))
               IN IF ups /\ call.trs = "both" /\ ("ReconnectAfterClose" \in Deviations \/ c3.st = "connected")
                  THEN /\ c' = WsConn([c3 EXCEPT !.nconn = @ + 1], c3.nconn + 1, RT)
                       /\ call' = [call EXCEPT !.stage = "wsconn", !.dl = now + RT, !.upg = TRUE]
@@ -226,7 +235,10 @@ ConnectFrame ==
     /\ ws.inq # <<>>
     /\ LET fr == Head(ws.inq)
            f == fr.f
-       IN /\ ws' = [ws EXCEPT !.inq = IF f = "DROP" THEN @ ELSE Tail(@)]
+       IN /\ ws' = LET w1 == [ws EXCEPT !.inq = IF f = "DROP" THEN @ ELSE Tail(@)]
+                   \* a connect handler that disconnects closes the fresh websocket
+                   IN IF call.stage # "wsprobe" /\ IsOpen(f) /\ ConnectDisconnects
+                      THEN WsClosed(w1) ELSE w1
           /\ call' = NoCall
           /\ IF call.stage = "wsprobe" THEN
                  IF f = "PONGprobe" THEN
@@ -344,7 +356,7 @@ ReadReply(id, status, pk, raw) ==
               LET a == AfterLoop(ReaderLeaves(c0, TRUE))
               IN /\ c' = a.cn /\ rd' = [rd EXCEPT !.st = a.st, !.dl = None] /\ UNCHANGED <<nid, ws>>
           ELSE
-              LET c1 == ReceiveAll(c0, pk)
+              LET c1 == ReceivePolled(c0, pk)
               IN IF c1.st = "connected" /\ c1.wlt = "set"
                  THEN /\ c' = Req(c1, nid + 1, "GET", <<>>, Max(c1.pi, c1.pt) + Grace)
                       /\ rd' = [st |-> "get", id |-> nid + 1,
@@ -418,7 +430,12 @@ EmitFrames(cc, pk) == IF pk = <<>> THEN cc
 RECURSIVE WriterTurn(_, _)
 WriterTurn(cc, top) ==
     \* returns [cn, st, id, dl]
-    IF top /\ cc.st # "connected" THEN [cn |-> cc, st |-> "done", id |-> 0, dl |-> None, nid |-> 0]
+    \* the loop goes on while connected or while something is still queued (what was queued
+    \* before a disconnect - the CLOSE packet - is still sent when the disconnect found the loop
+    \* busy with a POST); deviation "WriteLoopDropsQueued": the behaviour before the repair of F25
+    IF top /\ cc.st # "connected" /\ (cc.q = <<>> \/ "WriteLoopDropsQueued" \in Deviations)
+    THEN [cn |-> IF cc.q = <<>> THEN cc ELSE [cc EXCEPT !.dev = @ \cup {"WriteLoopDropsQueued"}],
+          st |-> "done", id |-> 0, dl |-> None, nid |-> 0]
     ELSE IF cc.q = <<>> THEN [cn |-> cc, st |-> "qwait", id |-> 0,
                               dl |-> now + Max(cc.pi, cc.pt) + Grace, nid |-> 0]
     ELSE IF Head(cc.q) = NIL THEN [cn |-> [cc EXCEPT !.q = Tail(@)], st |-> "done", id |-> 0,
